@@ -93,6 +93,11 @@ def build_specs(ctx, d):
     for order in starts:
         g.append(spec("three-chains", "start-order=%s" % (order,), small, 3, a, env={"PHYCLONE_VERIF_START_DELAYS": delays(order, gap)}))
     g.append(spec("three-chains", "affinity=1-core", small, 3, a, taskset=0))
+    # worker reuse: one worker process executes all three chains back to back / two workers share three chains (what the pool
+    # does when a worker becomes free before the others have started): each chain's trace must not depend on it
+    g.append(spec("three-chains", "pool-workers=1", small, 3, a, env={"PV_POOL_WORKERS": 1}))
+    if not ctx.quick:
+        g.append(spec("three-chains", "pool-workers=2", small, 3, a, env={"PV_POOL_WORKERS": 2}))
     if not ctx.quick:
         g.append(spec("three-chains", "hashseed=12345", small, 3, a, hashseed="12345"))
         g.append(spec("three-chains", "hashseed=random+completion-order=(2, 1, 0)", small, 3, a, hashseed=None, env={"PHYCLONE_VERIF_END_DELAYS": delays((2, 1, 0), gap)}, want_order=[2, 1, 0]))
@@ -124,12 +129,40 @@ def build_specs(ctx, d):
         g.append(spec("clustered-assign-loss", "hashseed=1", big, 2, a, hashseed="1"))
         g.append(spec("clustered-assign-loss", "affinity=1-core", big, 2, a, taskset=0))
     groups.append(("clustered-assign-loss", g))
+    # --- the same with STRING cluster ids and an exact tie for the truncal cluster (two clusters at cellular prevalence 1.0 in
+    # every sample): any choice made by iterating over a set / dict of cluster ids then depends on the hash seed, changes which
+    # clusters are flagged as lost and how many values the loader draws from the seeded generator
+    cl2 = os.path.join(d, "clusters_tie.tsv")
+    # clusters of >= 4 mutations (smaller ones are skipped by the loss heuristic): two truncal clusters with different
+    # chromosome spreads, a sub-clone spread over chromosomes, a sub-clone confined to one chromosome
+    layout = [("trunkA", ("1.0", "1.0"), ["chr1", "chr2", "chr3", "chr4", "chr5", "chr6"]),
+              ("trunkB", ("1.0", "1.0"), ["chr7", "chr7", "chr8", "chr8"]),
+              ("subC", ("0.5", "0.25"), ["chr1", "chr1", "chr2", "chr9", "chr9"]),
+              ("subD", ("0.25", "0.5"), ["chr3", "chr3", "chr3", "chr3"])]
+    rows2 = runs.make_rows(ctx.rng, sum(len(c) for _, _, c in layout), 2, depth=(20, 40))
+    for r in rows2:
+        r["mutation_id"] = "t%s:%s" % (r["mutation_id"][1:], r["mutation_id"])
+    big2 = runs.write_input(os.path.join(d, "clustered_tie.tsv"), rows2)
+    with open(cl2, "w") as fh:
+        fh.write("mutation_id\tsample_id\tcluster_id\tcellular_prevalence\tchrom\n")
+        m = 0
+        for cname, prev, chroms in layout:
+            for chrom in chroms:
+                for smp in range(2):
+                    fh.write("t%d:m%d\tS%d\t%s\t%s\t%s\n" % (m, m, smp, cname, prev[smp], chrom))
+                m += 1
+    a = ["--proposal", "semi-adapted", "-c", cl2, "--assign-loss-prob", "--grid-size", 41]
+    g = [spec("clustered-string-ids-tie", "reference", big2, 1, a)]
+    for hs in (["1", "2", "12345", None] if ctx.quick else ["1", "2", "3", "4", "5", "7", "12345", None]):
+        g.append(spec("clustered-string-ids-tie", "hashseed=%s" % ("random" if hs is None else hs), big2, 1, a, hashseed=hs))
+    groups.append(("clustered-string-ids-tie", g))
     # --- the repository's example input, default grid
     a = ["--proposal", "semi-adapted"]
     g = [spec("example-2-chains", "reference", example, 2, a), spec("example-2-chains", "hashseed=random+completion-order=(1, 0)", example, 2, a, hashseed=None, env={"PHYCLONE_VERIF_END_DELAYS": delays((1, 0), gap)}, want_order=[1, 0])]
     if not ctx.quick:
         g.append(spec("example-2-chains", "affinity=1-core+hashseed=1", example, 2, a, hashseed="1", taskset=0))
         g.append(spec("example-2-chains", "start-order=(1, 0)", example, 2, a, env={"PHYCLONE_VERIF_START_DELAYS": delays((1, 0), gap)}))
+    g.append(spec("example-2-chains", "pool-workers=1", example, 2, a, env={"PV_POOL_WORKERS": 1}))
     groups.append(("example-2-chains", g))
     return groups, seed
 
